@@ -99,7 +99,8 @@ def strategy(tier):
     fault = st.one_of(
         st.none(),
         st.fixed_dictionaries({'kind': st.sampled_from(
-            ['send', 'disconnect_handler', 'callback', 'listen']),
+            ['send', 'disconnect_handler', 'callback', 'listen',
+             'callback_cancelled']),
             'at': st.integers(0, 12)}))
     return st.fixed_dictionaries({
         'aio': st.booleans(),
@@ -121,7 +122,8 @@ def _run(case, cl):
     host = cl.hosts[0]
     sio, mgr = host.sio, host.mgr
     own = mgr.host_id
-    flags = {'send': False, 'disconnect_handler': False, 'callback': False}
+    flags = {'send': False, 'disconnect_handler': False, 'callback': False,
+             'callback_cancelled': False}
     disc_log = []
     cb_log = []
 
@@ -137,10 +139,21 @@ def _run(case, cl):
     table = {'§A§': A['sid'], '§B§': B['sid']}
 
     def mk_cb(name):
-        def cb(*args):
-            cb_log.append((name, list(args)))
-            if flags['callback']:
-                raise RuntimeError('injected callback fault')
+        if aio:
+            async def cb(*args):
+                cb_log.append((name, list(args)))
+                if flags['callback']:
+                    raise RuntimeError('injected callback fault')
+                if flags['callback_cancelled']:
+                    # the coroutine callback awaited something that was
+                    # cancelled
+                    import asyncio
+                    raise asyncio.CancelledError()
+        else:
+            def cb(*args):
+                cb_log.append((name, list(args)))
+                if flags['callback']:
+                    raise RuntimeError('injected callback fault')
         return cb
     host.h.do(sio.emit('q', 1, to=A['sid'], callback=mk_cb('A')))
     host.h.do(sio.emit('q', 1, to=B['sid'], callback=mk_cb('B')))
@@ -316,6 +329,9 @@ def _run(case, cl):
     host.consume(total + 5)
     for kf in flags:
         flags[kf] = False
+    if host.died:
+        raise Violation('listener-stopped', 'the listener left its loop '
+                        'before the channel ended; log %r' % host.logged[-2:])
     if mgr.cursor != total:
         raise Violation('listener-stopped',
                         'consumed %d of %d messages; log %r'
